@@ -453,14 +453,18 @@ def chainLoop (c : Cfg) (raw : Bool) (k : Nat) : List EStep → Map → ES → C
     | .error f => .error f
     | .ok (m', st', acc') => chainLoop c raw k rest m' st' acc' o
 
+/-- the handle a lookup yields -/
+def lookupState (raw : Bool) (m : Map) (k kid : Nat) : ES :=
+  match m.find k with
+  | some (loc, _) => .occ loc (if raw then none else some kid)
+  | none => .vac (if raw then none else some kid)
+
 /-- `entry(k)` (or `raw_entry_mut().from_key(&k)` etc.), the steps, then the handle is dropped.
     `lookupHashes`: hash computations of the lookup itself (0 for `from_key_hashed_nocheck` /
     `from_hash`, where the caller supplies the hash). -/
 def entryChain (c : Cfg) (raw : Bool) (lookupHashes : Nat) (m : Map) (k kid : Nat) (steps : List EStep) (o : Orc) :
     Except Fault (Map × Out) :=
-  let st0 : ES := match m.find k with
-    | some (loc, _) => .occ loc (if raw then none else some kid)
-    | none => .vac (if raw then none else some kid)
+  let st0 : ES := lookupState raw m k kid
   let occ0 := match st0 with | .occ _ _ => true | _ => false
   match chainLoop c raw k steps m st0 { cost := { hashes := lookupHashes } } o with
   | .error f => .error f
